@@ -270,6 +270,11 @@ Definition block_old (it : item) : list mact :=
 Definition script_of (items : list item) : list mact := flat_map block items.
 Definition script_old (items : list item) : list mact := flat_map block_old items.
 
+(** a task that still has business with the published_files mutex (holds it, or will take/release it) *)
+Definition isP (a : wact) : bool := match a with WAcqP | WRelP => true | _ => false end.
+Definition usesP (l : list wact) : bool := existsb isP l.
+Definition Pind (w : worker) : bool := usesP (rem w) || wp w.
+
 (** termination measure: actions still to be executed by anybody (+1 while main may still queue) *)
 Definition cost (a : mact) : nat :=
   match a with MSpawn sk => 1 + length sk | MVW => 2 | _ => 1 end.
